@@ -23,11 +23,16 @@ TRUSTED = ["os.walk / os.unlink (file tree supplied to the model by the harness)
 
 FILE_POOL = ["a.py", "a.pyc", "a.pyo", "b.pyc", "c.pyo", "d.py", "x.pyc.bak", ".pyc", "pyc", "X.PYC", "e.pyo~", "f.txt",
              "__init__.py", "__init__.pyc", "g.PY", "h.pyc", "h.py", ".py", "tests.pyc", "mod.pyo", "mod.py", "ä.pyc",
-             "top10%.pyc", "%s.pyo", "100%.py", "100%.pyc", "%(name)s.pyc", "sp ace.pyc", "new\nline.pyo"]
+             "top10%.pyc", "%s.pyo", "100%.py", "100%.pyc", "%(name)s.pyc", "sp ace.pyc", "new\nline.pyo",
+             # stems with dots: the source of NAME.pyc is NAME.py, whatever NAME looks like (settings modules, files
+             # copied out of __pycache__, versioned data)
+             "conf.local.py", "conf.local.pyc", "conf.py", "mod.cpython-312.pyc", "mod.cpython-312.pyo", "mod.py",
+             "data.v2.pyo", "data.py", "data.v2.py", "a.b.c.pyc", "a.py", "..pyc", ".hidden.pyc", ".hidden.py"]
 DIR_POOL = ["pkg", "sub", "__pycache__", ".git", ".svn", "CVS", "_darcs", "not-ident", "node_modules", "deep", "x.y", "Ünï",
             "git", "svn", ".tox", "tox", "arch-ids", ".arch-ids", "{arch}", "__pycache__.old", "old__pycache__",
             "__pycache__2", "CVS2", "_darcs.bak", "build[1]", "build1", "de?p", "mod.py", "a.py", "h.py", "cov-100%", "build-%d",
             "%(x)s", "{0}", "sp ace"]
+FILE_POOL = list(dict.fromkeys(FILE_POOL))
 # the documented defaults of --ignore_dir (cross-checked with the argparse default regenerated into Facts)
 DEFAULT_IGNORE = [".git", ".svn", "CVS", "{arch}", ".arch-ids", "_darcs"]
 
@@ -135,6 +140,10 @@ def run(ctx):
     for names in (["a.py", "a.pyc", "a.pyo"], ["a.py", "a.py,cover", "a.pyc"], ["a.py", "a.py.orig", "a.pyo", "b.pyc"],
                   ["b.pyc", "b.pyo"], ["a.py", "a.pyc", "a.pyc.bak", "c.pyo"]):
         cases.append(({"files": names, "subs": [["sub", {"files": list(reversed(names)), "subs": []}]]}, [()], False, False, [], False))
+    for names in (["conf.local.py", "conf.local.pyc"], ["conf.py", "conf.local.pyc"], ["mod.py", "mod.cpython-312.pyc", "mod.pyc"],
+                  ["data.py", "data.v2.pyo", "data.v2.py", "data.pyo"], ["a.py", "a.b.c.pyc", "a.b.py"], [".hidden.pyc", ".hidden.py", "..pyc"]):
+        cases.append(({"files": names, "subs": [["sub", {"files": [n for n in names if not n.endswith(".py")], "subs": []}]]},
+                      [()], False, False, [], False))
     # directed: names given with --ignore_dir are names, not patterns
     orphan = lambda: {"files": ["old.pyc", "gone.pyo", "kept.py", "kept.pyc"], "subs": []}  # noqa: E731
     for ign in (["build[1]"], ["de?p"], ["bu*"], ["build1"]):
